@@ -68,7 +68,7 @@ def suite_history(ctx, case):
         keep[0][types[-1]] = 0.123; keep[1][types[-1]] = 0.77
     drv = ctx.drv
     drv.ask('dens.new %d' % n); drv.ask('diam.new %d' % n)
-    cur_r = {}; cur_d = {}
+    cur_r = {}; cur_d = {}; cur_s = {}          # cur_s: contact distances written straight into the sigma table (valid until one of the two diameters is assigned again)
     for k, op in enumerate(case['ops']):
         v = op['v']
         val = int(v) if op.get('int') else v
@@ -76,14 +76,22 @@ def suite_history(ctx, case):
         if op.get('zerod'): val = np.array(val, dtype=float) if op['zerod'] == 'array' else np.squeeze(np.array([float(val), 7.0])[:1])          # a 0-d array (np.asarray(x), np.squeeze of a 1-element slice) is a number too
         key = key_of(op['ts'], types, op['style'])
         sub = dict(case); sub['upto'] = k
-        if op['kind'] == 'dens':
+        if op['kind'] == 'sigma':
+            a_, b_ = op['ts'][0], op['ts'][-1]
+            diam.sigma[fresh_key(types[a_]), fresh_key(types[b_])] = float(v)          # a non-additive contact distance (documented attribute `sigma`)
+            drv.ask('diam.sigma %d %d %s' % (a_, b_, f2h(v)))
+            cur_s[(min(a_, b_), max(a_, b_))] = float(v)
+        elif op['kind'] == 'dens':
             dens[key] = val
             drv.ask('dens.set %s %s' % (f2h(v), ' '.join(map(str, op['ts']))))
             for t in op['ts']: cur_r[t] = float(v)
         else:
             diam[key] = val
             drv.ask('diam.set %s %s' % (f2h(v), ' '.join(map(str, op['ts']))))
-            for t in op['ts']: cur_d[t] = float(v)
+            for t in op['ts']:
+                cur_d[t] = float(v)
+                # the assignment recomputes the sigma of that type with every type that HAS a diameter (itself included)
+                for pq in [pq for pq in cur_s if t in pq and (pq[0] if pq[1] == t else pq[1]) in cur_d]: del cur_s[pq]
         # ---- correspondence
         ctx.corr('history', sub, drv.ask('dens.obs'), obs_dens(dens, n, types), what='Density after op %d' % k)
         line, same = obs_diam(diam, n, types)
@@ -103,7 +111,9 @@ def suite_history(ctx, case):
                     if P != 0 or S != 0: ok = False; why = 'unassigned pair/site entry touched'
                 da, db = cur_d.get(a), cur_d.get(b)
                 sg = diam[types[a], types[b]]
-                if da is not None and db is not None:
+                if (min(a, b), max(a, b)) in cur_s:
+                    if sg != cur_s[(min(a, b), max(a, b))]: ok = False; why = 'sigma[%d,%d]=%r is not the value written into the sigma table (%r)' % (a, b, sg, cur_s[(min(a, b), max(a, b))])
+                elif da is not None and db is not None:
                     if sg != (da + db) / 2.0: ok = False; why = 'sigma[%d,%d]=%r != %r' % (a, b, sg, (da + db) / 2)
                 elif sg is not None:
                     ok = False; why = 'sigma of unassigned pair is set'
@@ -145,12 +155,14 @@ def gen_case(rng, max_ops):
             ts = [rng.randrange(n)]
         else:
             ts = [rng.randrange(n) for _ in range(rng.randint(1, n + 1))]
-        kind = rng.choice(['dens', 'diam'])
+        kind = rng.choice(['dens', 'diam', 'dens', 'diam', 'sigma'])
+        if kind == 'sigma': ts = [rng.randrange(n), rng.randrange(n)]; style = 'single'
         isint = rng.random() < 0.15
         v = float(rng.randint(1, 5)) if isint else round(rng.choice([rng.uniform(0.01, 2.0), 10 ** rng.uniform(-6, 3)]), rng.randint(2, 12))
         if v <= 0: v = 0.5
         if kind == 'dens' and rng.random() < 0.08: v = 0.0; isint = False          # a component with density exactly zero is an assigned value like any other
         # sweeps: re-assignments close to (or in the dilute regime far below any absolute tolerance of) an earlier value of the same kind
+        if kind == 'sigma': isint = False
         prev = [o['v'] for o in ops if o['kind'] == kind]
         c = rng.random()
         if prev and c < 0.2: v = prev[-1] * (1 + rng.choice([1e-6, -1e-6, 4e-6, 1e-9, 1e-12])); isint = False
